@@ -547,6 +547,15 @@ func (g *txnGen) genOp() OperationJ {
 		}
 		op := OperationJ{Op: "insert", Table: t.Name, Row: row}
 		op.UUID = g.sh.fresh()
+		if rng.Intn(10) == 0 {
+			// a uuid that is taken: by a row inserted earlier in this transaction, or by a stored row (which an
+			// earlier operation of the transaction may have deleted)
+			if ins := g.inserted[t.Name]; len(ins) > 0 && rng.Intn(2) == 0 {
+				op.UUID = ins[rng.Intn(len(ins))]
+			} else if ex := g.sh.uuids(t.Name); len(ex) > 0 {
+				op.UUID = ex[rng.Intn(len(ex))]
+			}
+		}
 		g.inserted[t.Name] = append(g.inserted[t.Name], op.UUID)
 		return op
 	case k < 11: // update
@@ -632,6 +641,12 @@ func genTxn(rng *rand.Rand, ts TxnSchema, sh *shadow, nops int) TxnJ {
 			if rng.Intn(2) == 0 {
 				t.Ops = append(t.Ops, OperationJ{Op: "select", Table: op.Table, Where: op.Where})
 			}
+		}
+	case 9, 10:
+		// insert / delete mutations on a set or map of an existing row whose argument overlaps the current
+		// value only partly (some members, some non-members): the delta is not the argument
+		if op, ok := g.genOverlapMutation(); ok {
+			t.Ops = append(t.Ops, op)
 		}
 	case 2, 3:
 		// a column of an existing row goes back to its default value (by update, or by deleting
@@ -858,4 +873,84 @@ func (g *txnGen) genFullRowUpdate() (OperationJ, bool) {
 		row[c.Name] = nativeToOvsValue(g.genColValue(c))
 	}
 	return OperationJ{Op: "update", Table: t.Name, Row: row, Where: byUUID(u)}, true
+}
+
+// genOverlapMutation: a set / map column of an existing row holding something, mutated with an argument made
+// of some of its members and some values it does not hold
+func (g *txnGen) genOverlapMutation() (OperationJ, bool) {
+	type cand struct {
+		t   TableSpec
+		c   ColSpec
+		u   string
+		cur *Value
+	}
+	var cands []cand
+	for _, t := range g.ts.Spec.Tables {
+		for _, u := range g.sh.uuids(t.Name) {
+			for _, c := range t.Cols {
+				v := g.sh.rows[t.Name][u][c.Name]
+				if v == nil || c.Immutable {
+					continue
+				}
+				if (v.K == 'S' && len(v.S) > 0) || (v.K == 'M' && len(v.M) > 0) {
+					cands = append(cands, cand{t, c, u, v})
+				}
+			}
+		}
+	}
+	if len(cands) == 0 {
+		return OperationJ{}, false
+	}
+	x := cands[g.rng.Intn(len(cands))]
+	fresh := g.genColValue(x.c) // random elements: mostly non-members
+	arg := &Value{K: x.cur.K}
+	switch x.cur.K {
+	case 'S':
+		for _, a := range x.cur.S {
+			if g.rng.Intn(2) == 0 {
+				arg.S = append(arg.S, a)
+			}
+		}
+		if len(arg.S) == 0 {
+			arg.S = append(arg.S, x.cur.S[0])
+		}
+		for _, a := range fresh.S {
+			dup := false
+			for _, b := range arg.S {
+				dup = dup || a.Key() == b.Key()
+			}
+			if !dup && len(arg.S) < 4 {
+				arg.S = append(arg.S, a)
+			}
+		}
+	case 'M':
+		for _, p := range x.cur.M {
+			if g.rng.Intn(2) == 0 {
+				arg.M = append(arg.M, p)
+			}
+		}
+		if len(arg.M) == 0 {
+			arg.M = append(arg.M, x.cur.M[0])
+		}
+		for _, p := range fresh.M {
+			dup := false
+			for _, q := range arg.M {
+				dup = dup || p[0].Key() == q[0].Key()
+			}
+			if !dup && len(arg.M) < 4 {
+				arg.M = append(arg.M, p)
+			}
+		}
+	}
+	g.rng.Shuffle(len(arg.S), func(i, j int) { arg.S[i], arg.S[j] = arg.S[j], arg.S[i] })
+	g.rng.Shuffle(len(arg.M), func(i, j int) { arg.M[i], arg.M[j] = arg.M[j], arg.M[i] })
+	mut := []string{"delete", "insert"}[g.rng.Intn(2)]
+	if x.cur.K == 'M' && mut == "delete" && g.rng.Intn(2) == 0 {
+		ks := &Value{K: 'S'}
+		for _, p := range arg.M {
+			ks.S = append(ks.S, p[0])
+		}
+		arg = ks
+	}
+	return OperationJ{Op: "mutate", Table: x.t.Name, Mutations: []MutationJ{{Col: x.c.Name, Mutator: mut, Val: nativeToOvsValue(arg)}}, Where: byUUID(x.u)}, true
 }
